@@ -622,6 +622,39 @@ def check_dataset(case, root, pq, ctx=None, verbose=False):
                         break
                     row[c] = L.canon(out[c].iloc[pos])
             by_id[rid] = row
+        # partial handles derive the partition columns again from a subset of the paths: a slice of the row groups and the
+        # row-group iterator must show, for every row, the same partition cells as the full read
+        if not problems and len(pf.row_groups) > 1:
+            def cells_of(frame, what):
+                for pos in range(len(frame)):
+                    rid = int(frame["id"].iloc[pos])
+                    got_cells = {c: L.canon(frame[c].iloc[pos]) for c in pcols if c in frame.columns}
+                    if not hive and rid in texts and set(got_cells) == set(by_id.get(rid, {})):
+                        # drill levels are untyped: a partial handle guesses from the values IT sees (text / the guessed value /
+                        # numerically equal are all "the key text"), so only the drill rule itself is demanded of each cell
+                        okc = True
+                        for j2, c2 in enumerate(pcols):
+                            g2, t2 = got_cells[c2], texts[rid][j2]
+                            gm2 = L.from_model(pq.call("val_to_num", L.enc(t2), [L.oracle_entry(t2)]))
+                            okc = okc and (g2 == ["s", t2] or g2 == gm2 or g2 == by_id[rid][c2] or
+                                           (g2[0] in "bif" and gm2[0] in "bif" and float(_num(g2)) == float(_num(gm2))))
+                        if okc:
+                            continue
+                    if got_cells != by_id.get(rid):
+                        problems.append("%s: row %d has partition cells %r, the full read %r" % (what, rid, got_cells, by_id.get(rid)))
+                        cls_extra["mismatch"] = "value"
+                        return
+            try:
+                cells_of(pf[1:].to_pandas(), "ParquetFile(dir)[1:].to_pandas()")
+                seen_rg = 0
+                for frame in pf.iter_row_groups():
+                    seen_rg += len(frame)
+                    cells_of(frame, "iter_row_groups()")
+                if seen_rg != len(ids):
+                    problems.append("iter_row_groups() yields %d rows, the full read %d" % (seen_rg, len(ids)))
+            except Exception as e:      # noqa
+                problems.append("partial read of the dataset raised %s: %s" % (type(e).__name__, str(e)[:150]))
+                cls_extra["stage"] = "partial-read"
         # the property: original names, values and value kinds (hive); positional columns carrying the key text (drill)
         for rid in ids:
             if rid not in texts or problems:
